@@ -29,6 +29,12 @@ def obligations(tier):
                                ('src/math/zz/zz_add.c', {'defs': ren(ZAf + Wf, ['BEE2_VERIF_WORD=32'])}), ('src/math/ww.c', {'defs': ren(Wf + ZAf, ['BEE2_VERIF_WORD=32'])})],
                   unwind=20, timeout=600, backend=['cadical', 'kissat'], funcs=['zzAdd', 'zzSub', 'zzNeg', 'wwCmp', 'wwBitSize'],
                   bound='all pairs of 16-octet operands; 2 x 64-bit words vs 4 x 32-bit words'))
+    # SAFE_FAST edition: SAFE(f) = f_safe, FAST(f) = f; plain (single-edition) functions get their #ifdef SAFE_FAST bodies
+    FN = ['zzAdd', 'zzAdd2', 'zzAdd3', 'zzAddW', 'zzAddW2', 'zzSub', 'zzSub2', 'zzSubW', 'zzSubW2', 'zzNeg', 'zzIsEven', 'zzIsOdd', 'zzIsSumEq', 'zzIsSumEq_safe', 'zzIsSumWEq', 'zzIsSumWEq_safe']
+    obs.append(Ob(name='c19_zz_add_safe_fast', harness='harness/C19/cfg.c', entry='h_safefast',
+                  srcs=core + ['src/math/zz/zz_add.c', 'src/math/ww.c', ('src/math/zz/zz_add.c', {'defs': ['%s=%s__F' % (f, f) for f in FN] + ['SAFE_FAST']})],
+                  unwind=20, timeout=600, backend=['cadical', 'kissat'], funcs=['zzAdd', 'zzSub', 'zzAddW', 'zzSubW', 'zzAddW2', 'zzSubW2', 'zzAdd2', 'zzSub2'],
+                  bound='n symbolic 0..2 words of 64 bits, all values: default build vs -DSAFE_FAST build of zz_add.c'))
     obs.append(Ob(name='c19_bashF_64_32', harness='harness/C19/cfg.c', entry='h_bashf',
                   srcs=core + ['src/crypto/bash/bash_f.c', ('src/crypto/bash/bash_f.c', {'defs': ren(['bashF', 'bashF_deep'], ['BASH_32'])})],
                   unwind=200, timeout=900, checks=[], backend=['kissat', 'cadical'], funcs=['bashF (bash_f64.c)', 'bashF (bash_f32.c)'], bound='all 2^1536 states'))
